@@ -488,6 +488,9 @@ func (ep *sentEpisode) event(kind string, named bool, addr, variant int) string 
 	name := "mymaster"
 	if !named {
 		name = "othermaster"
+		if variant >= 100 { // a foreign master set whose name has ours as a proper prefix
+			name = "mymaster2"
+		}
 	}
 	var msg rueidis.PubSubMessage
 	switch kind {
@@ -750,9 +753,27 @@ func (r *sentRunner) exec(c *Ctx, line string) {
 		addr, _ := strconv.Atoi(kv["addr"])
 		variant, _ := strconv.Atoi(kv["var"])
 		named := kv["named"] == "1"
+		foreign := kv["named"] == "2" && ws[1] != "brk" && ws[1] != "oth" // +switch-master / +reboot of the foreign set "mymaster2"
+		before, beforeDead, haveBefore := "", false, false
+		if foreign {
+			variant += 100
+			if r.ep.mode != "r" {
+				before, beforeDead, haveBefore = r.ep.primaryProbe()
+			}
+		}
 		ans := r.ep.event(ws[1], named, addr, variant)
 		c.Emit(line, ans, true)
 		c.Hit("ev:" + ws[1])
+		if foreign && haveBefore && r.ep.client != nil {
+			c.Hit("ev:foreign-set")
+			if after, afterDead, ok := r.ep.primaryProbe(); ok {
+				c.Emit(fmt.Sprintf("!foreign before=%s/%s after=%s/%s", short(before), b01(beforeDead), short(after), b01(afterDead)), "ok", false)
+				if before != after || beforeDead != afterDead {
+					c.Fail("sentinel:foreign-master-set-event-followed", line,
+						fmt.Sprintf("an event of the foreign master set mymaster2 moved primary traffic from %s to %s", short(before), short(after)))
+				}
+			}
+		}
 		if strings.HasPrefix(ans, "ok ") {
 			switch {
 			case ws[1] == "brk":
@@ -916,6 +937,15 @@ func runSentinel(c *Ctx) {
 			}
 		}
 	}
+	// ---- events of a foreign master set whose name has ours as a proper prefix ("mymaster2"): must be ignored
+	for _, kind := range []string{"sm", "rbm", "slv"} {
+		for _, mode := range []string{"m", "b", "r"} {
+			run("reset mode="+mode+" init=0 s0=D:-:n0:2 n0=D:M n1=D:M n2=D:S n3=D:S", "do repl=0",
+				fmt.Sprintf("ev %s named=2 addr=1 var=0", kind), "do repl=0", "do repl=1",
+				fmt.Sprintf("ev %s named=2 addr=3 var=3", kind), "do repl=1",
+				fmt.Sprintf("ev %s named=1 addr=1 var=0", kind), "do repl=0", "refresh", "do repl=0")
+		}
+	}
 	// ---- SendToReplicas mode, success paths
 	for _, reps := range []string{"2", "1!,2", "2,1!"} {
 		run(fmt.Sprintf("reset mode=b init=0 s0=D:1:n0:%s s1=D:-:n0:2 n0=D:M n1=D:S n2=D:S", reps), "do repl=0", "do repl=1", "refresh", "do repl=1",
@@ -976,7 +1006,7 @@ func runSentinel(c *Ctx) {
 					evRoles = evRoles[:4]
 				}
 				run(fmt.Sprintf("world s0=D:-:n%d:2 s1=D:-:n%d:2 s2=D:-:n%d:2 n%d=D:%s n%d=D:S n2=D:S", tj, tj, tj, tj, pickS(evRoles...), 1-tj),
-					fmt.Sprintf("ev %s named=%s addr=%d var=%d", pickS("sm", "sm", "rbm", "slv", "oth", "brk"), pickS("1", "1", "0"), pickS2(c, tj), c.Rng.IntN(4)))
+					fmt.Sprintf("ev %s named=%s addr=%d var=%d", pickS("sm", "sm", "rbm", "slv", "oth", "brk"), pickS("1", "1", "0", "2"), pickS2(c, tj), c.Rng.IntN(4)))
 				run("do repl=0")
 			}
 		}
